@@ -34,7 +34,7 @@ ASSUMPTIONS = [
 ]
 BUDGET = {
     "quick": {"shards": 16, "examples": 40, "wall": 110, "fit_examples": 4},
-    "thorough": {"shards": 16, "examples": 2500, "wall": 1200, "fit_examples": 35},
+    "thorough": {"shards": 16, "examples": 25000, "wall": 900, "fit_examples": 350},
 }
 FIELDS = {
     "common_subexpression_elimination": st.booleans(),
